@@ -32,7 +32,7 @@ type Type struct {
 	ID      int
 	Kind    Kind
 	Name    string  // named kinds: type name; KAnon: field name; KBasic: builtin name
-	Pkg     string  // "" = main package of the program; otherwise sibling package name
+	Pkg     string  // "" = main package of the program; otherwise the sibling package's directory (ExtPkg.Dir)
 	Base    int     // KPtr/KSlice/KMap/KFunc/KArray: element type id
 	Fields  []Field // KStruct: exported fields (expansion candidates)
 	Impl    []int   // KStruct: interface ids implemented
@@ -156,7 +156,7 @@ func (s *Spec) Expr(id int, from string) string {
 
 func (s *Spec) importName(pkg string) string {
 	for _, e := range s.ExtPkgs {
-		if e.Name == pkg {
+		if e.Dir == pkg {
 			if e.Alias != "" {
 				return e.Alias
 			}
